@@ -37,9 +37,9 @@ CHECKS = {
          "Scenario duration is far below the 10-minute refill; fresh source IPs per scenario. The lower bound is only demanded for bursts of reply-eliciting requests.",
          "DESIGN.md §5 C10"),
  "C17": ("exploration",
-         "runtime monitoring: decoder operations executed under Go bounds checks on exact-capacity buffers and compared step by step with a cursor model (exhaustive over all operation sequences up to length 3/4 on 56 buffers, seeded beyond); IPP requests from an independent encoder posted through the real dispatcher, reply and event compared with what was encoded",
+         "runtime monitoring: decoder operations executed under Go bounds checks on exact-capacity buffers and compared step by step with a cursor model (exhaustive over all operation sequences up to length 3/4 on 56 buffers, seeded beyond); IPP requests from an independent encoder posted through the real dispatcher, reply and event compared with what was encoded, and the service's own decoding of every request (guarded hook ipp.VerifDecode) compared value by value with the encoder's view",
          "Every sequence runs against the real decoder in its own recover; return value, Available() and the error flag are compared with the model after every operation. IPP requests over the five operations with every supported value tag and 1..3 values go through server.Run; reply version/request-id/charset/language and the print-job event fields must equal what was encoded.",
-         "Out-of-bounds reads are observed through Go's bounds checks (capacity == length). The statement's treatment of negative arguments is modelled as 'does not fit' for Copy and 'rewind inside the buffer' for Seek. Of a decoded IPP request only what the service shows is compared (reply header, charset, language; the print job's uri, user, job name, document): attributes that reach neither reply nor event are decoded but not compared (seeded change C17-7 is not caught for that reason; DESIGN 11.5).",
+         "Out-of-bounds reads are observed through Go's bounds checks (capacity == length). The statement's treatment of negative arguments is modelled as 'does not fit' for Copy and 'rewind inside the buffer' for Seek. The decoded attribute list of an IPP request is visible neither in the reply nor in the event; it is read through the guarded hook ipp.VerifDecode and compared as a flat list of values (so the grouping of additional values into attributes is not judged, only their tags, names, bytes and order).",
          "DESIGN.md §5 C17"),
  "C05": ("exploration",
          "runtime monitoring: read-back of the real event constructors (exhaustive over all 1- and 2-byte payloads, seeded to 64 KiB, address kinds, option subsets, merge/copy vs a map model) through Range/ToMap/MarshalJSON and the real file channel's lines on disk; every event the services emit under the C01 workload is re-marshalled and field-checked in the capture channel",
